@@ -117,6 +117,9 @@ type target struct {
 	E   string            `json:"e"`
 	U   string            `json:"u"`
 	N   json.Number       `json:"n"`
+	NS  json.Number       `json:"ns,string"`
+	NQ  json.Number       `json:"nq"`
+	NL  []json.Number     `json:"nl"`
 	R   json.RawMessage   `json:"r"`
 	B   []byte            `json:"b"`
 	M   map[string]string `json:"m"`
@@ -138,7 +141,7 @@ func buildDoc(upperKeys bool, class int) string {
 		}
 		return `"` + s + `"`
 	}
-	return `{` + k("s") + `:` + str + `,` + k("e") + `:"a\tb",` + k("u") + `:"A😀",` + k("n") + `:123.5e1,` +
+	return `{` + k("s") + `:` + str + `,` + k("e") + `:"a\tb",` + k("u") + `:"A😀",` + k("n") + `:123.5e1,` + k("ns") + `:"1234567890",` + k("nq") + `:"3.25",` + k("nl") + `:[1.5,"1e3",-7],` +
 		k("r") + `: {"x": [1, "two"]} ,` + k("b") + `:"aGVsbG8gd29ybGQ=",` + k("m") + `:{"key1":` + str + `,"key2":"v2","":"e"},` +
 		k("a") + `:{"ak":[` + str + `,12,{"deep":"dv"}]},` + k("q") + `:"\"quoted\"",` + k("i") + `:` + []string{`"42"`, `"007"`, `"-0012"`, `"0"`}[class] + `,` + k("l") + `:[` + str + `,"x"],` +
 		k(key63) + `:"v63",` + k(key64) + `:"v64",` + k(key65) + `:"v65"}`
@@ -159,7 +162,7 @@ var targetKinds = []targetKind{
 		return `[` + []string{`"plain ascii value"`, `"esc\"aped\n"`, `"non-ascii é"`, `""`}[class] + `, "second" ,"third"]`
 	}},
 	{"map-number", func() any { return new(map[string]json.Number) }, func(_ bool, class int) string {
-		return `{"a":1,"b":-2.5e3,"c":` + []string{"0", "12345678901234567890", "1e-7", "-0"}[class] + `}`
+		return `{"a":1,"b":-2.5e3,"q":"1234567890","c":` + []string{"0", "12345678901234567890", "1e-7", "-0"}[class] + `}`
 	}},
 	{"array-raw", func() any { return new([2]json.RawMessage) }, func(_ bool, class int) string {
 		return `[ {"a":` + []string{`"x"`, `"\n"`, `"é"`, `""`}[class] + `} , [1,2] ]`
